@@ -24,7 +24,9 @@ import PcbV.Model.Heap
     * `evaluate` takes the argument expressions and the body as *computations* (`Comp`), so that the
       theorems hold for every body outcome and with garbage collection at any point inside;
       `evalE` is the concrete expression evaluator used by the correspondence (literals, variables, `+`,
-      forced collections, a failing subexpression, temporaries, nested FN calls).
+      forced collections, a failing subexpression, temporaries, nested FN calls) under a default-type
+      table; statement histories (`stmt`, `runStmts`) interleave LET/PRINT with DEFtype statements and
+      DEF FN (re)definitions: names written without a type character are completed when they are USED.
 
   This is the model of the REPAIRED code: saved values are collector roots (commit 71bbc812, defect
   D17), the converted arguments and the function result are clones, not views of variable cells
@@ -290,36 +292,72 @@ def plusC (a b : Val) : Comp := fun s =>
     if r = .int ∧ ¬ (-131072 ≤ z ∧ z ≤ 131068) then .ok (s, .num .sng z) else .ok (s, .num r z)
   | _, _ => .error (Gen.E.type_mismatch, s)
 
+/-! ### default types (DEFINT / DEFSNG / DEFDBL / DEFSTR) -/
+
+/-- `DataSegment.deftype`: the default type of each initial letter A..Z -/
+abbrev DefTy := List Ty
+
+def defTy0 : DefTy := List.replicate 26 .sng
+
+def sigilChar : Ty → Nat
+  | .int => 37
+  | .sng => 33
+  | .dbl => 35
+  | .str => 36
+
+def isSigil (c : Nat) : Bool := c = 37 || c = 33 || c = 35 || c = 36
+
+/-- `DataSegment.complete_name`: a name written without a type character gets the CURRENT default
+    type of its first letter (names are upper case here) -/
+def completeName (dt : DefTy) (name : Bytes) : Bytes :=
+  match name.getLast? with
+  | none => name
+  | some c =>
+    if isSigil c then name
+    else name ++ [sigilChar ((dt[name.headD 65 - 65]?).getD .sng)]
+
+/-- `DataSegment.deftype_`: letters `lo..hi` (0-based) get type `t` -/
+def setDefTy (dt : DefTy) (t : Ty) (lo hi : Nat) : DefTy :=
+  (enumFrom 0 dt).map (fun x => if lo ≤ x.1 ∧ x.1 ≤ hi then t else x.2)
+
 inductive FExpr
   | nlit (t : Ty) (q : Int)          -- numeric literal
   | code (addr : Nat) (len : Nat)    -- string literal inside the program text
-  | var (name : Bytes)               -- scalar variable (complete name)
+  | var (name : Bytes)               -- scalar variable, as written (with or without type character)
   | plus (a b : FExpr)               -- a + b
   | gcEmpty                          -- SPACE$(0*FRE("")) : collection, then an empty string
   | gcZero                           -- 0*FRE("")         : collection, then a Single zero
   | fail                             -- 1\0               : Division by zero
   | rep (n c : Nat)                  -- STRING$(n, c)     : a temporary in string space
-  | call (f : Nat) (args : List FExpr)
+  | call (f : Bytes) (args : List FExpr)   -- FN<f>(args), name as written
 
+/-- a `UserFunction` object in `UserFunctionManager._fn_dict` -/
 structure FnDecl where
-  sigil : Ty
-  params : List Bytes
+  name : Bytes            -- the function name completed when DEF FN was executed (dict key)
+  params : List Bytes     -- parameter names as written: completed at every call
   body : FExpr
 
 def undefinedFn : Nat := Gen.E.undefined_user_function
 
-/-- the expression evaluator (`ExpressionParser.parse` restricted to the forms above); fuel bounds the
-    nesting depth, 999 = fuel exhausted (never happens for the fuel the driver uses) -/
-def evalE (fns : List FnDecl) : Nat → FExpr → Comp
+/-- `_fn_dict[name]`: the latest definition under that complete name; its position identifies the
+    UserFunction object (every DEF FN creates a new one with its own `_is_parsing` flag) -/
+def findFn (name : Bytes) : List FnDecl → Nat → Option (Nat × FnDecl) → Option (Nat × FnDecl)
+  | [], _, acc => acc
+  | d :: r, i, acc => findFn name r (i + 1) (if d.name = name then some (i, d) else acc)
+
+/-- the expression evaluator (`ExpressionParser.parse` restricted to the forms above) under the
+    default-type table `dt` (it cannot change inside an expression); fuel bounds the nesting depth,
+    999 = fuel exhausted (never happens for the fuel the driver uses) -/
+def evalE (dt : DefTy) (fns : List FnDecl) : Nat → FExpr → Comp
   | 0, _ => failC crash
   | _ + 1, .nlit t q => pureC (.num t q)
   | _ + 1, .code addr len => pureC (.str ⟨len, addr⟩)
-  | _ + 1, .var name => readC name
+  | _ + 1, .var name => readC (completeName dt name)
   | fuel + 1, .plus a b => fun s =>
-    match evalE fns fuel a s with
+    match evalE dt fns fuel a s with
     | .error x => .error x
     | .ok (s1, va) =>
-      match withRoot va (evalE fns fuel b) s1 with
+      match withRoot va (evalE dt fns fuel b) s1 with
       | .error x => .error x
       | .ok (s2, va', vb) => plusC va' vb s2
   | _ + 1, .gcEmpty => fun s =>
@@ -329,16 +367,20 @@ def evalE (fns : List FnDecl) : Nat → FExpr → Comp
   | _ + 1, .gcZero => gcC (.num .sng 0)
   | _ + 1, .fail => failC Gen.E.division_by_zero
   | _ + 1, .rep n c => allocC (List.replicate n c)
-  | fuel + 1, .call i args =>
-    match fns[i]? with
+  | fuel + 1, .call f args =>
+    match findFn (completeName dt f) fns 0 none with
     | none => failC undefinedFn
-    | some d => evaluate ⟨i, d.sigil, d.params⟩ (args.map (evalE fns fuel)) (evalE fns fuel d.body)
+    | some (i, d) =>
+      evaluate ⟨i, sigil d.name, d.params.map (completeName dt)⟩ (args.map (evalE dt fns fuel))
+        (evalE dt fns fuel d.body)
 
 /-! ### statements of the correspondence programs -/
 
 inductive Stmt
-  | letS (name : Bytes) (e : FExpr)     -- name = e
-  | printS (e : FExpr)                  -- PRINT e
+  | letS (name : Bytes) (e : FExpr)               -- name = e   (name as written)
+  | printS (e : FExpr)                            -- PRINT e
+  | defType (t : Ty) (lo hi : Nat)                -- DEFINT/DEFSNG/DEFDBL/DEFSTR lo-hi
+  | defFn (name : Bytes) (params : List Bytes) (body : FExpr)   -- DEF FNname(params)=body
 
 inductive Out
   | done
@@ -349,40 +391,61 @@ deriving DecidableEq, Repr
 
 def fuel0 : Nat := 40
 
-/-- `DataSegment.let_` / PRINT; every statement starts with `reset_temporaries` (parse_expression) and
-    ends with the evaluation stacks unwound -/
-def stmt (fns : List FnDecl) (st : Stmt) (s : St) : St × Out :=
+/-- the interpreter state between statements: default types, defined functions, memory -/
+structure Prog where
+  dt : DefTy
+  fns : List FnDecl
+  s : St
+
+/-- `UserFunctionManager.define`: "allocate, but don't set" the parameter variables under the default
+    types current at the DEF (the 2-byte function pointer record is not modelled) -/
+def defParams : List Bytes → St → St
+  | [], s => s
+  | n :: r, s =>
+    match ensureVar n s with
+    | .ok s1 => defParams r s1
+    | .error (_, s1) => s1
+
+/-- `DataSegment.let_` / PRINT / DEFtype / DEF FN; every expression statement starts with
+    `reset_temporaries` (parse_expression) and ends with the evaluation stacks unwound -/
+def stmt (st : Stmt) (p : Prog) : Prog × Out :=
   let fin (t : St) : St := unwind 0 t
+  let s := p.s
   match st with
+  | .defType t lo hi => ({ p with dt := setDefTy p.dt t lo hi }, .done)
+  | .defFn name params body =>
+    ({ p with fns := p.fns ++ [⟨completeName p.dt name, params, body⟩],
+              s := defParams (params.map (completeName p.dt)) s }, .done)
   | .printS e =>
-    match evalE fns fuel0 e { s with h := resetTemps s.h } with
-    | .error (e, t) => (fin t, .err e)
-    | .ok (t, .num _ q) => (fin t, .num q)
-    | .ok (t, .str p) => (fin t, .str (deref t.h p))
-  | .letS name e =>
+    match evalE p.dt p.fns fuel0 e { s with h := resetTemps s.h } with
+    | .error (e, t) => ({ p with s := fin t }, .err e)
+    | .ok (t, .num _ q) => ({ p with s := fin t }, .num q)
+    | .ok (t, .str q) => ({ p with s := fin t }, .str (deref t.h q))
+  | .letS raw e =>
+    let name := completeName p.dt raw
     match ensureVar name s with
-    | .error (e, t) => (fin t, .err e)
+    | .error (e, t) => ({ p with s := fin t }, .err e)
     | .ok s1 =>
-      match evalE fns fuel0 e { s1 with h := resetTemps s1.h } with
-      | .error (e, t) => (fin t, .err e)
+      match evalE p.dt p.fns fuel0 e { s1 with h := resetTemps s1.h } with
+      | .error (e, t) => ({ p with s := fin t }, .err e)
       | .ok (t, v) =>
         match conv (sigil name) v with
-        | .error e => (fin t, .err e)
-        | .ok (.num _ q) => (fin (setNum t name q), .done)
-        | .ok (.str p) =>
+        | .error e => ({ p with s := fin t }, .err e)
+        | .ok (.num _ q) => ({ p with s := fin (setNum t name q) }, .done)
+        | .ok (.str q) =>
           let r : HR :=
-            if needsCopy t.h p then
-              match allocPush (deref t.h p) t.h with
+            if needsCopy t.h q then
+              match allocPush (deref t.h q) t.h with
               | .error x => .error x
               | .ok h4 => assignDst (.sc name) (itemPtr h4 (topItem h4)) h4
-            else assignDst (.sc name) p (push t.h (.own p))
+            else assignDst (.sc name) q (push t.h (.own q))
           match r with
-          | .error (e, h) => (fin { t with h := h }, .err e)
-          | .ok h => (fin { t with h := h }, .done)
+          | .error (e, h) => ({ p with s := fin { t with h := h } }, .err e)
+          | .ok h => ({ p with s := fin { t with h := h } }, .done)
 
-def runStmts (fns : List FnDecl) : List Stmt → St → List (St × Out)
+def runStmts : List Stmt → Prog → List (Prog × Out)
   | [], _ => []
-  | st :: r, s => let so := stmt fns st s; so :: runStmts fns r so.1
+  | st :: r, p => let so := stmt st p; so :: runStmts r so.1
 
 def initSt (h : Heap) : St := { h := h, nums := [], busy := [] }
 
